@@ -205,12 +205,8 @@ def _run(lim0, ops, ps, eager=False, one_raiser=None):
                         team.do(world.task(ti, _Eq(ti, one_raiser)))
                 elif o == GROW:
                     team.grow(p)
-                    if eager and p == 0:
-                        return not world.coord._pending   # grow(0), performed at once: a no-op event
                 elif o == SHRINK:
                     team.shrink(p)
-                    if eager and p == 0:
-                        return not world.coord._pending   # shrink(0), performed at once: a no-op event
                 else:
                     team.quit()
                     quit_called = True
@@ -229,6 +225,8 @@ def _run(lim0, ops, ps, eager=False, one_raiser=None):
             if eager:
                 while world.cperform():
                     pass
+                if (o == GROW or o == SHRINK) and not quit_called and p == 0:
+                    return True    # grow(0)/shrink(0) performed at once: a no-op event
             world.check_queues()
             if world.bad is not None:
                 return False
